@@ -16,6 +16,10 @@ import (
 
 var customStatus = optimize.NewStatus("C19CustomStop", true, errors.New("c19: custom stop"))
 
+// budgetPanic is raised by the objective wrappers when a run makes more
+// callbacks than evalBudget: the run is then classified as non-terminating.
+const budgetPanic = "c19: evaluation budget exceeded"
+
 var errRecorder = errors.New("c19: recorder failure")
 var errStatus = errors.New("c19: status failure")
 
@@ -178,6 +182,22 @@ func (c *runCfg) String() string {
 	return b.String()
 }
 
+// evalBudget is the number of objective callbacks after which a run is
+// declared non-terminating. Every terminating run of the declared space needs
+// far fewer (the largest observed count is reported as max_callbacks_per_run).
+//
+// A run is also cut off after nanStreakBudget consecutive Func calls at a NaN
+// location: the longest terminating sequence of that kind is a Bisection that
+// halves its step from 1 down to 0 (about 1100 evaluations); Backtracking gives
+// up after 67.
+func (c *runCfg) evalBudget() int { return 60000 }
+
+const nanStreakBudget = 4000
+
+// sameStreakBudget: Func evaluated this many times in a row at one and the
+// same (non-NaN) location also counts as non-termination.
+const sameStreakBudget = 1500
+
 // ---------------------------------------------------------------- the log of one run
 
 type ptLog struct {
@@ -186,6 +206,7 @@ type ptLog struct {
 }
 
 type recEntry struct {
+	failed bool
 	op    optimize.Operation
 	f     float64
 	x     []float64
@@ -197,8 +218,10 @@ type runLog struct {
 	nF, nG, nH, nStatus, nRecord, nRecInit int
 	pts                                    map[string]*ptLog
 	recs                                   []recEntry
-	recFailed                              bool
-	recFailOp                              optimize.Operation
+	recFailed                              bool // the recorder returned an error at least once (it keeps failing from the k-th record on)
+	nanStreak                              int // consecutive Func calls at a NaN location
+	sameStreak                             int // consecutive Func calls at one and the same location
+	lastX                                  []float64
 	statusFired                            bool
 	minF                                   float64 // least non-NaN value returned by Func (+Inf if none)
 	f0                                     float64 // f(x0) computed by the harness
@@ -255,14 +278,12 @@ func (r *recorder) Record(l *optimize.Location, op optimize.Operation, s *optimi
 		if l.Gradient != nil {
 			e.g = append([]float64(nil), l.Gradient...)
 		}
-		lg.recs = append(lg.recs, e)
 		if r.failAt > 0 && lg.nRecord >= r.failAt {
 			fail = true
-			if !lg.recFailed {
-				lg.recFailed = true
-				lg.recFailOp = op
-			}
+			e.failed = true
+			lg.recFailed = true
 		}
+		lg.recs = append(lg.recs, e)
 	})
 	if fail {
 		return errRecorder
@@ -284,9 +305,24 @@ func (c *runCfg) body(out *runResult) func() {
 		inst := c.o.mk()
 		x0 := append([]float64(nil), c.start()...)
 		lg.f0 = c.o.mk().f(x0)
+		budget := c.evalBudget()
 		p := optimize.Problem{Func: func(x []float64) float64 {
 			vsched.Point("Func")
 			f := inst.f(x)
+			if math.IsNaN(x[0]) {
+				lg.nanStreak++
+			} else {
+				lg.nanStreak = 0
+			}
+			if sameVec(x, lg.lastX) {
+				lg.sameStreak++
+			} else {
+				lg.sameStreak = 0
+				lg.lastX = append(lg.lastX[:0], x...)
+			}
+			if lg.nF+lg.nG+lg.nH >= budget || lg.nanStreak >= nanStreakBudget || lg.sameStreak >= sameStreakBudget {
+				panic(budgetPanic)
+			}
 			vlib.Atomically(func() {
 				lg.nF++
 				q := lg.pt(x)
@@ -301,6 +337,9 @@ func (c *runCfg) body(out *runResult) func() {
 			p.Grad = func(g, x []float64) {
 				vsched.Point("Grad")
 				inst.g(g, x)
+				if lg.nF+lg.nG+lg.nH >= budget {
+					panic(budgetPanic)
+				}
 				vlib.Atomically(func() {
 					lg.nG++
 					q := lg.pt(x)
@@ -468,7 +507,11 @@ func (c *runCfg) check(r *runResult) (class, msg string) {
 	if status == optimize.NotTerminated {
 		return "status", "Minimize returned with status NotTerminated"
 	}
-	recPostFail := c.recMode > 0 && lg.recFailed && lg.recFailOp == optimize.PostIteration
+	// recPostFail: the final PostIteration record failed.
+	recPostFail := false
+	if n := len(lg.recs); c.recMode > 0 && n > 0 {
+		recPostFail = lg.recs[n-1].failed && lg.recs[n-1].op == optimize.PostIteration
+	}
 	if status == optimize.Failure && err == nil {
 		return "status-error", "status Failure with a nil error"
 	}
